@@ -154,6 +154,29 @@ def install(m):
         m.add_constraint(NOT(alt.guard))
         return DEAD
 
+    @reg("$verifGuardedBy")
+    def vguarded(m, alt, fr, ins, args, work):
+        # verifGuardedBy(target, lock, name): target is a pointer to a cell (or struct field) or a map value
+        tgt, lock, name = args
+        tv = tgt.v if type(tgt) is Iface else tgt
+        lv = lock.v if type(lock) is Iface else lock
+        if type(tv) is MapRef:
+            m.guarded_maps[tv.obj] = (lv, name)
+        elif type(tv) is Ptr:
+            m.guarded_cells.append((tv.obj, tv.path, lv, name))
+        else:
+            raise Unsupported("verifGuardedBy target %r" % (tv,))
+        return None
+
+    @reg("$verifAtomicOnly")
+    def vatomiconly(m, alt, fr, ins, args, work):
+        tgt, name = args
+        tv = tgt.v if type(tgt) is Iface else tgt
+        if type(tv) is not Ptr:
+            raise Unsupported("verifAtomicOnly target %r" % (tv,))
+        m.atomic_only[(tv.obj, tv.path)] = name
+        return None
+
     @reg("$verifMerge", vis=True)
     def vmerge(m, alt, fr, ins, args, work):
         return None
@@ -399,9 +422,18 @@ def install(m):
             return e
         return load, store, add, swap, cas
 
+    def atomically(f):
+        def g(m, alt, fr, ins, args, work):
+            m.in_atomic = True
+            try:
+                return f(m, alt, fr, ins, args, work)
+            finally:
+                m.in_atomic = False
+        return g
+
     for tn, fn_suffix, bits, signed in (("Int32", "Int32", 32, True), ("Int64", "Int64", 64, True),
                                         ("Uint32", "Uint32", 32, False), ("Uint64", "Uint64", 64, False)):
-        load, store, add, swap, cas = atomic_fns(tn, bits, signed)
+        load, store, add, swap, cas = [atomically(f_) for f_ in atomic_fns(tn, bits, signed)]
         R["sync/atomic.Load" + fn_suffix] = (True, load)
         R["sync/atomic.Store" + fn_suffix] = (True, store)
         R["sync/atomic.Add" + fn_suffix] = (True, add)
@@ -430,10 +462,10 @@ def install(m):
         e = eq_vals(m, v, args[1])
         m.store(alt, args[0], args[2], e)
         return e
-    R["(*sync/atomic.Bool).Load"] = (True, b_load)
-    R["(*sync/atomic.Bool).Store"] = (True, b_store)
-    R["(*sync/atomic.Bool).Swap"] = (True, b_swap)
-    R["(*sync/atomic.Bool).CompareAndSwap"] = (True, b_cas)
+    R["(*sync/atomic.Bool).Load"] = (True, atomically(b_load))
+    R["(*sync/atomic.Bool).Store"] = (True, atomically(b_store))
+    R["(*sync/atomic.Bool).Swap"] = (True, atomically(b_swap))
+    R["(*sync/atomic.Bool).CompareAndSwap"] = (True, atomically(b_cas))
 
     # ------------------------------------------------------------------ context
     # ctx object: (kind, parent, done, err, children, key, val)   kind in bg|cancel|value
